@@ -98,3 +98,47 @@ func (p *Program) calledOnlyFromIn(pkgRel string, seeds ...string) map[*types.Fu
 	p.onlyFromCache[key] = set
 	return set
 }
+
+// canonStr renders an expression with every local variable or parameter replaced by the base name of its
+// type (‹Object›, ‹Hook›, …), so that a guard can be compared with an expected form without depending on
+// what a maintainer chose to call the variable. Package-level objects, fields, methods and constants keep
+// their names. Forms it does not know are rendered by types.ExprString.
+func canonStr(info *types.Info, e ast.Expr) string {
+	switch x := e.(type) {
+	case *ast.Ident:
+		if v, ok := info.ObjectOf(x).(*types.Var); ok && !v.IsField() && v.Parent() != nil && v.Pkg() != nil && v.Parent() != v.Pkg().Scope() {
+			t := v.Type()
+			for {
+				if p, ok := t.(*types.Pointer); ok {
+					t = p.Elem()
+					continue
+				}
+				break
+			}
+			if n, ok := t.(*types.Named); ok {
+				return "‹" + n.Obj().Name() + "›"
+			}
+			return "‹" + t.String() + "›"
+		}
+		return x.Name
+	case *ast.ParenExpr:
+		return "(" + canonStr(info, x.X) + ")"
+	case *ast.SelectorExpr:
+		return canonStr(info, x.X) + "." + x.Sel.Name
+	case *ast.StarExpr:
+		return "*" + canonStr(info, x.X)
+	case *ast.UnaryExpr:
+		return x.Op.String() + canonStr(info, x.X)
+	case *ast.BinaryExpr:
+		return canonStr(info, x.X) + " " + x.Op.String() + " " + canonStr(info, x.Y)
+	case *ast.IndexExpr:
+		return canonStr(info, x.X) + "[" + canonStr(info, x.Index) + "]"
+	case *ast.CallExpr:
+		var args []string
+		for _, a := range x.Args {
+			args = append(args, canonStr(info, a))
+		}
+		return canonStr(info, x.Fun) + "(" + strings.Join(args, ", ") + ")"
+	}
+	return types.ExprString(e)
+}
